@@ -253,6 +253,7 @@ theorem program_started_at_most_once_per_activation (tbl : List IfaceRow) (a : A
       | timeout => exact Eff.same rfl rfl rfl
       | expire due => exact Eff.same rfl rfl rfl
       | stall c on => exact Eff.same rfl rfl rfl
+      | reload p => exact Eff.same rfl rfl rfl
     | childExited k err =>
       cases err with
       | none => exact Eff.same rfl rfl rfl
